@@ -6,7 +6,9 @@
 namespace sim { namespace gen {
 
 static const std::vector<std::string> kSchemes = {"s", "S", "http", "a+b.c-", "Fi-Le", "z9"};
-static const std::vector<std::string> kUser = {"", "u", "u:p", "%41", "%7e", "U%2fx", ":", "a%3Ab"};
+static const std::vector<std::string> kUser = {"", "u", "u:p", "%41", "%7e", "U%2fx", ":", "a%3Ab",
+    // after "name:" the parser is in its "port or user info" state: digits first, then every other character class once
+    "u:%7Epw", "u:80%7e", "u:8~", "u:1-._~", "u:%41", "u:1!$&'()*+,;=", "1.2.3.4:%70w", "u:80", "u::", "a_b~c:-"};
 static const std::vector<std::string> kHosts = {"", "h", "H.%61", "example.com", "1.2.3.4", "256.1.1.1", "01.2.3.4", "[::1]", "[1:2::ffff:1.2.3.4]",
     "[v1.A:b]", "[vF.x]", "[2001:DB8::7]", "[::]", "[1:2:3:4:5:6:7:8]", "%41%2e", "A%7Eb", "1.2.3.%34", "h-1", "1.2.3", "[::ffff:10.0.0.1]", "x%C3%A9"};
 static const std::vector<std::string> kPorts = {"", "80", "0", "65536", "8080", "0080", "00", "007", "1000000000", "5294967296", "80", "443"};
